@@ -204,6 +204,24 @@ pub fn run(tier: Tier) -> ! {
                 }
             }
         }
+        // ... and LONG sentences (around 128/256 characters and beyond) under small and large windows, so that
+        // relative positions really take every value of the window (a short text never reaches offset 128)
+        for &w in &[3u8, 127, 128, 129, 200, 255] {
+            for &len in &tier.pick(vec![130usize, 257, 300], vec![130, 257, 300, 520, 1025]) {
+                for which in 0..2 {
+                    let cfg = if which == 0 { Config { charw: w, charn: 2, typew: 1, typen: 1, dict: vec![], bucket: 1, solver: 1 } } else { Config { charw: 1, charn: 1, typew: w, typen: 2, dict: vec!["ab".into()], bucket: 2, solver: 1 } };
+                    let t: Vec<char> = (0..len).map(|i| ['a', 'b', 'あ', '1'][(i * i / 3 + i / 5) % 4]).collect();
+                    // few annotated boundaries (start, both sides of 128 and 256, end), the rest unknown
+                    let mut labels = vec![2u8; len - 1];
+                    for (k, &pos) in [0usize, 1, 126, 127, 128, 129, 254, 255, 256, len - 3, len - 2].iter().enumerate() {
+                        if pos < labels.len() {
+                            labels[pos] = (k % 2) as u8;
+                        }
+                    }
+                    jobs.push((cfg, vec![(t, labels)]));
+                }
+            }
+        }
         chk.set("large_window_cases", json!(jobs.len()));
         jobs.par_iter().for_each(|(cfg, sents)| {
             chk.eval(1);
